@@ -195,12 +195,14 @@ pub fn gen_dech(tier: &str, rng: &mut Rng, out: &mut Vec<String>) {
         base.push((format!("dec resp200 none {} 16 6 Z 0 EV d{} p d{}", max, bare(&b[..9]), bare(&b[9..])), b.len()));
     }
     for (i, (line, total)) in base.iter().enumerate() {
+        // lying hints stay allocatable (an implementation that reserves what the hint says shows in
+        // the allocation observer instead of killing the process)
         let hints: [(u64, Option<u64>); 6] = [
             (*total as u64, Some(*total as u64)),
-            (1 << 40, Some(1 << 40)),
-            (1 << 33, None),
+            (64 << 20, Some(64 << 20)),
+            (256 << 20, None),
             (0, Some(1 << 62)),
-            (3 << 30, Some(3 << 30)),
+            (128 << 20, Some(1 << 40)),
             (0, Some(0)),
         ];
         // every line with the truthful hint and one lying hint; the oversize lines with all
@@ -776,6 +778,22 @@ pub fn gen_lim_seq(tier: &str, rng: &mut Rng, out: &mut Vec<String>) {
     }
     out.push("lim.seq s d9 a5/- u-:5:1 u-:6:1 a-/3 u-:5:3 u-:5:4 a7/8 c-:7,8:8 d-:7:8,9".into());
     out.push("lim.seq c d5 e5 k u-:5:5 u-:6:5 u-:5:6 k d6 k u-:5:6".into());
+    // compression negotiated: the limits meet the WIRE length (gzip makes a short message longer, a
+    // long one shorter), on every shape, whichever builder came first
+    {
+        let z = |n: usize| msg_tok(n, true);
+        let (small, big) = (3usize, 900usize); // 3 B -> 23 B on the wire, 900 B -> far fewer
+        let wb = wire_table()[big];
+        for shape in ["u", "s", "c", "d"] {
+            // server: compressed requests against the decoding limit, compressed responses against the encoding limit
+            out.push(format!("lim.seq s zA d{} {shape}z:{}:1 {shape}z:{}:1 d22 {shape}z:{}:1 {shape}z:{},{}:1", wb, z(big), z(big + 300), z(small), z(1), z(small)));
+            out.push(format!("lim.seq s d22 zA {shape}z:{},{}:1 {shape}-:22:1 {shape}-:23:1 {shape}z:{}:1", z(2), z(small), z(big)));
+            out.push(format!("lim.seq s zS e{} {shape}-:1:{} {shape}-:1:{},{} e22 {shape}-:1:{} {shape}-:1:{},{}", wb, z(big), z(big), z(big + 300), z(small), z(2), z(small)));
+            // client: compressed requests against the encoding limit, compressed responses against the decoding limit
+            out.push(format!("lim.seq c zS e{} {shape}-:{}:1 {shape}-:{}:1 e22 {shape}-:{}:1 {shape}-:{},{}:1", wb, z(big), z(big + 300), z(small), z(2), z(small)));
+            out.push(format!("lim.seq c zA d{} {shape}z:1:{} {shape}z:1:{},{} k d22 {shape}z:1:{} {shape}z:1:{},{}", wb, z(big), z(big), z(big + 300), z(small), z(2), z(small)));
+        }
+    }
     // ---- random programs
     let n = if thorough { 12000 } else { 500 };
     let lims: [usize; 9] = [0, 1, 2, 5, 30, 31, 64, 1024, 70000];
